@@ -7,6 +7,7 @@
 #include "../seams/alloc.h"
 #include "../seams/stackctx.h"
 #include <algorithm>
+#include <cfenv>
 #include <cstring>
 #include <sys/personality.h>
 #include <sstream>
@@ -216,7 +217,7 @@ uint64_t api_call(const Op &op, const Vals &v_in, const Prefill &pf, bool &ok) {
         d.u64(need);
         if (k == "dict.sizes") {
             float r = varintDictCompressionRatio(in, n);
-            d.bytes(&r, 4);
+            d.u64(r > 0.0f); // the ratio itself is a float quotient, not produced bytes / values / counts
             varintDictStats st;
             memset(&st, 0, sizeof st);
             d.u64((uint64_t)varintDictGetStats(in, n, &st));
@@ -382,6 +383,10 @@ class Residue : public Engine {
             cls = r.chance(2, 3) ? ARR_POOL : ARR_FULL64;
             if (op.kind == "adaptive.decode") op.set("enc", VARINT_ADAPTIVE_TAGGED);
         }
+        if (r.chance(1, tier == Tier::Thorough ? 150 : 1500) && op.kind != "bitmap.roundtrip" && op.kind.rfind("adaptive.", 0) != 0) {
+            n = 65537 + r.below(6000); // paths that only exist above 65536 elements
+            if (cls == ARR_STRICT_INC16) cls = ARR_CLUSTERED;
+        }
         op.mkarr("values") = gen_array(r, n, cls);
         // different data of the same length (and of the same class) for the self-history context
         op.mkarr("values2") = gen_array(r, n, cls);
@@ -415,6 +420,9 @@ class Residue : public Engine {
         c.push_back({"crafted-width", stackctx::WORD64, wd.w, alloc::Fill::Pattern, wd, 0});
         c.push_back({"self-history", stackctx::ZERO, 0, alloc::Fill::Garbage, garb, 2});
         c.push_back({"self-history-same", stackctx::GARBAGE, seed ^ 0x77, alloc::Fill::Garbage, garb, 3});
+        // (A context with another floating-point rounding mode was tried and withdrawn: the
+        // adaptive selector's float ratios legitimately follow the C rounding mode, and the
+        // statement lists residue, preceding calls and the process image, not the FP environment.)
         Prefill moved = garb;
         moved.shift = 8 * (1 + (unsigned)(seed % 7)); // other addresses, same alignment class for typed outputs
         c.push_back({"moved-buffers", stackctx::ZERO, 0, alloc::Fill::Zero, moved, 0});
@@ -431,7 +439,7 @@ class Residue : public Engine {
         return api;
     }
     static std::string g_ctx_note_for(const Op &op, const Context &c) {
-        return "api=" + api_name(op) + " context=" + c.name;
+        return "api=" + api_name(op) + " |context=" + c.name; // which context disagrees first can depend on addresses
     }
 
     // Runs the call in one context; returns its digest
@@ -453,7 +461,7 @@ class Residue : public Engine {
                 const Vals *src = op.arr("values2") ? op.arr("values2") : &vals;
                 calls.push_back([other, src, &c, &dummy_ok]() {
                     // a death inside a preceding call belongs to that call
-                    ctx_note("api=" + other.kind + " context=" + c.name + "(as preceding call)");
+                    ctx_note("api=" + other.kind + " |context=" + c.name + " (as preceding call)");
                     api_call(other, *src, c.out, dummy_ok);
                 });
             }
@@ -467,7 +475,11 @@ class Residue : public Engine {
         std::string note = g_ctx_note_for(op, c);
         calls.push_back([&]() {
             ctx_note(note);
+            int saved = fegetround();
+            if (c.history == 10) fesetround(FE_UPWARD);
+            if (c.history == 11) fesetround(FE_TOWARDZERO);
             digest = api_call(op, vals, c.out, ok);
+            fesetround(saved);
         });
         stackctx::run(calls, c.stack, c.word);
         alloc::reset_run();
@@ -525,7 +537,7 @@ class Residue : public Engine {
             out.nontrivial.push_back(nt);
             if (dgst != ref || !ok) {
                 out.cls = "context-disagreement";
-                out.key = "api=" + api + " context=" + c.name;
+                out.key = "api=" + api;
                 out.detail = api + " on " + std::to_string(n) + " values: the result in context '" + c.name +
                              "' differs from the result in the clean context (same arguments)" +
                              (ok ? "" : "; a canary next to an output buffer was overwritten");
@@ -534,7 +546,7 @@ class Residue : public Engine {
         }
         if (!out.violation() && out.cls != "skip" && op.u("fresh")) {
             // the clean context in a newly spawned process (address randomisation left on)
-            ctx_note("api=" + api + " context=fresh-process");
+            ctx_note("api=" + api + " |context=fresh-process");
             Plan q = plan;
             q.ops.erase(q.ops.begin(), q.ops.end() - 1); // the fresh process has no earlier calls
             q.ops[0].set("only", 1);
@@ -578,7 +590,7 @@ class Residue : public Engine {
                     out.nontrivial.push_back(fnv1a("fresh", 5, plan.digest()));
                     if (pos == std::string::npos || dg != ref) {
                         out.cls = "context-disagreement";
-                        out.key = "api=" + api + " context=fresh-process";
+                        out.key = "api=" + api;
                         out.detail = api + ": the result in a freshly spawned process differs from the result in "
                                            "this process (same arguments): hidden state left by earlier calls";
                         if (plan.ops.size() == 1 && !recent_.empty()) {
